@@ -3,6 +3,7 @@ package value
 import (
 	"fmt"
 	"sync"
+	"sync/atomic"
 )
 
 var MutexClass *Class              // ::Std::Sync::Mutex
@@ -11,6 +12,9 @@ var MutexUnlockedErrorClass *Class // ::Std::Sync::Mutex::UnlockedError
 // Wraps a Go mutex.
 type Mutex struct {
 	Native sync.Mutex
+	// true while Native is held; unlocking an unlocked sync.Mutex
+	// is a fatal error that cannot be recovered, so it has to be detected beforehand
+	locked atomic.Bool
 }
 
 func NewMutex() *Mutex {
@@ -55,14 +59,13 @@ func (*Mutex) InstanceVariables() *InstanceVariables {
 
 func (m *Mutex) Lock() {
 	m.Native.Lock()
+	m.locked.Store(true)
 }
 
 func (m *Mutex) Unlock() (err Value) {
-	defer func() {
-		if r := recover(); r != nil {
-			err = Ref(NewError(MutexUnlockedErrorClass, "cannot unlock an unlocked mutex"))
-		}
-	}()
+	if !m.locked.CompareAndSwap(true, false) {
+		return Ref(NewError(MutexUnlockedErrorClass, "cannot unlock an unlocked mutex"))
+	}
 
 	m.Native.Unlock()
 	return Undefined
